@@ -514,7 +514,8 @@ func (t *vfTree) step() bool {
 			return true
 		}
 		proc = "SYMLINK"
-		target := []string{"a", "b", "c/d", "zz", "./a"}[t.rng.Intn(5)]
+		// incl. components that merely CONTAIN dots: legal, and not a ".." component
+		target := []string{"a", "b", "c/d", "zz", "./a", "a..b", "c/d...e", "..a", "a..", "..."}[t.rng.Intn(10)]
 		if t.forced != nil {
 			target = t.forced.target
 		}
